@@ -62,6 +62,12 @@ OBLIGATIONS = [
      "statement": "without the mutex a 2-thread schedule loses a command (the translator fact is load-bearing)"},
     {"id": "C01_T5_swap_needed", "theorem": "Iora.C01.T5_needs_locked_swap", "kind": "proved",
      "statement": "without the mutex around process()'s swap (read, then clear) one sender's accepted command is neither queued nor dispatched: processSwapUnderCmdMutex is an argument of Enq.run in T5 and load-bearing"},
+    {"id": "C01_T5_whole_batch_needed", "theorem": "Iora.C01.T5_needs_whole_batch_dispatch", "kind": "proved",
+     "statement": "witness: if process() dispatched only a budget of commands per call and re-queued the unprocessed tail at the back of _cmds, ONE sender's commands 0,1,2 are dispatched in the order 0,2,1 (session open, no error): processDispatchesWholeBatch is the third argument of Enq.run in T5 and load-bearing"},
+    {"id": "C01_T5_default_whole_batch", "theorem": "Iora.C01.T5_default_whole_batch", "kind": "proved",
+     "statement": "as extracted: process()'s dispatch loop is its only loop and has no early exit, _cmds is mutated only by enqueue's two push_back and the two locked swaps (process, shutdownDrain), the eventfd is written only in enqueue"},
+    {"id": "C01_wake_whole_batch_needed", "theorem": "Iora.C01.wakeup_three_steps_need_whole_batch", "kind": "proved",
+     "statement": "witness: with a one-command budget per process() call the I/O thread's next three steps do not take two queued commands (wakeup_dispatches_all consumes processDispatchesWholeBatch)"},
     {"id": "C01_wake", "theorem": "Iora.C01.no_lost_wakeup", "kind": "proved",
      "statement": "eventfd wake-up protocol (write after push_back inside the lock, drainEvt() before process(), both regenerated): for every schedule of any number of senders and the I/O thread a non-empty command queue is always announced (counter > 0, or I/O thread between drain and swap, or the pushing sender just before its write); whenever the I/O thread sleeps with no enqueue in flight the queue is empty and every accepted command was dispatched"},
     {"id": "C01_wake_progress", "theorem": "Iora.C01.wakeup_dispatches_all", "kind": "proved",
@@ -258,6 +264,9 @@ def gen_case(rng, idx, quick, corner=None):
     if not c["nolock"] and rng.chance(1, 16):      # (with unlocked senders the accepted order is rebuilt from the peer's stream: nothing may end the session early)
         c["so"] = rng.range(1, 4)
         c["expectend"] = 1
+    # a small per-wake-up event budget (epollMaxEvents) and one send accepted from a helper thread while a larger batch is dispatched
+    c["eme"] = rng.choice([1, 2, 3]) if rng.chance(1, 6) else 0
+    c["mid"] = [rng.choice([1, 100, 4096]), rng.range(0, 250)] if c["eme"] and not c["nolock"] and rng.chance(2, 3) else []
     c["cat"] = "random"
     return c
 
@@ -266,7 +275,7 @@ def base_case(rng, idx, **kw):
     c = {"id": idx, "role": rng.choice(["srv", "cli"]), "tls": int(rng.chance(1, 3)), "et": int(rng.chance(1, 2)), "batch": int(rng.chance(1, 3)),
          "thr": 1, "sndbuf": 0, "rcvbuf": 0, "prcvbuf": 0, "mwq": 1024, "cob": 1, "chunk": 65536, "early": 0, "hsdelay": 0, "expectend": 0,
          "sends": [], "wf": [], "rf": [], "hf": [], "wd": [], "peer": [65536, 0, 0], "pw": [], "echo": [], "pclose": -1, "cat": "boundary",
-         "gp": "", "async": 0, "nolock": 0, "s2": [], "gate": 0}
+         "gp": "", "async": 0, "nolock": 0, "s2": [], "gate": 0, "eme": 0, "mid": []}
     c.update(kw)
     return c
 
@@ -338,7 +347,7 @@ def gen_boundary_cases(rng, start, n, big_ok=False):
             chunk = rng.choice([1000, 4096, 4096, 16383])
             pw = [[rng.choice([chunk + 1, chunk + 4, 12004, 16384, 3 * chunk + 7]), rng.range(0, 250), rng.choice([0, 200])] for _ in range(rng.range(1, 3))]
             c = base_case(rng, i, tls=1, et=0, chunk=chunk, pw=pw, sends=[[10, 1, 0, 0]], cat="boundary-lt-tls-record-tail")
-        elif k == 4 and len(out) % 18 in (4, 13):
+        elif k == 4 and len(out) % 18 == 4:
             # timer-originated close commands: stale (condition gone: dropped, the stream goes on) and effective (write stall with the
             # queue refused; handshake timeout inside the handshake window; connect timeout inside the connect window)
             o = rng.range(1, 3)
@@ -357,6 +366,17 @@ def gen_boundary_cases(rng, start, n, big_ok=False):
             c = base_case(rng, i, sends=pre + [[0, o, 0, 0]] + post, expectend=1, cat="boundary-close-origin", **kw)
             if o == 3 and c["tls"]:
                 c["wf"] = ["w" if x == "a" else x for x in c["wf"]]
+        elif len(out) % 18 in (12, 13):
+            # one process() call dispatches the WHOLE swapped batch, in order: the I/O thread is parked after epoll_wait (wd) so that a
+            # burst queues in ONE wake-up — more commands than the engine's per-wake-up event budget (epollMaxEvents set to 1..3, or
+            # > 256 commands against the default) — and while the first command of that batch is in its write call a helper thread's
+            # send() is accepted ("mid"): it must reach the wire AFTER the whole batch
+            big = len(out) % 36 == 12
+            eme = 0 if big else rng.range(1, 3)
+            nb_ = rng.range(280, 330) if big else rng.range(eme + 3, eme + 9)
+            sends = [[rng.choice([8, 9, 64, 100, 200]) if big else rng.choice([1, 100, 3000, 20000]), rng.range(0, 250), 0, 0] for _ in range(nb_)]
+            c = base_case(rng, i, sends=sends, eme=eme, mid=[rng.choice([1, 77, 5000]), rng.range(0, 250)], wd=[rng.choice([3000, 20000])] * 6,
+                          cat="boundary-batch-exceeds-event-budget")
         elif k == 2:    # reads around ioReadChunk
             chunk = rng.choice([1, 2, 1000, 4096, 65536])
             pw = [[max(1, chunk + d), rng.range(0, 250), rng.choice([0, 200])] for d in (rng.choice([-1, 0, 1]), 0, 1, chunk)]
@@ -387,9 +407,9 @@ def case_line(c):
     def lst(xs, sub="."):
         return ",".join(sub.join(str(v) for v in x) if isinstance(x, (list, tuple)) else str(x) for x in xs) if xs else "-"
     return ("case id=%s role=%s tls=%d et=%d batch=%d thr=%d sndbuf=%d rcvbuf=%d prcvbuf=%d mwq=%d cob=%d chunk=%d early=%d hsdelay=%d "
-            "expectend=%d lossy=%d async=%d nolock=%d gate=%d so=%d gp=%s s2=%s cbsend=%s clsend=%s pclose=%s peer=%s sends=%s pw=%s echo=%s wf=%s rf=%s hf=%s wd=%s") % (
+            "expectend=%d lossy=%d async=%d nolock=%d gate=%d so=%d eme=%d mid=%s gp=%s s2=%s cbsend=%s clsend=%s pclose=%s peer=%s sends=%s pw=%s echo=%s wf=%s rf=%s hf=%s wd=%s") % (
         c["id"], c["role"], c["tls"], c["et"], c["batch"], c["thr"], c["sndbuf"], c["rcvbuf"], c["prcvbuf"], c["mwq"], c["cob"], c["chunk"],
-        c["early"], c["hsdelay"], c["expectend"], int(c["cob"] == 0 and c["mwq"] < 1024), c.get("async", 0), c.get("nolock", 0), c.get("gate", 0), c.get("so", 0),
+        c["early"], c["hsdelay"], c["expectend"], int(c["cob"] == 0 and c["mwq"] < 1024), c.get("async", 0), c.get("nolock", 0), c.get("gate", 0), c.get("so", 0), c.get("eme", 0), ".".join(str(v) for v in c.get("mid") or []) or "-",
         c.get("gp") or "-", lst(c.get("s2") or []), ".".join(str(v) for v in c.get("cbsend") or []) or "-", ".".join(str(v) for v in c.get("clsend") or []) or "-",
         "-" if c["pclose"] < 0 else str(c["pclose"]), ".".join(str(v) for v in c["peer"]),
         lst(c["sends"]), lst(c["pw"]), lst(c.get("echo") or []), lst(c["wf"]), lst(c["rf"]), lst(c["hf"]), lst(c["wd"]))
@@ -674,6 +694,8 @@ def check_cases(ctx, hb, cases, workers, dist, tag="", solo=False):
         oc = [int(x) for x in r["fin"].get("oclose", "0.0.0.0").split(".")]
         for nm, v in zip(("app", "connect-timeout", "handshake-timeout", "write-stall"), oc):
             dist["close_commands"][nm] = dist["close_commands"].get(nm, 0) + v
+        if int(r["fin"].get("mid", "0")):
+            dist["reached"]["send_accepted_while_batch_over_event_budget_is_dispatched"] = dist["reached"].get("send_accepted_while_batch_over_event_budget_is_dispatched", 0) + 1
         for nm in ("cbsend", "clsend"):
             if int(r["fin"].get(nm, "0")):
                 dist["reached"]["send_from_%s_callback" % ("accept_or_connect" if nm == "cbsend" else "close")] = dist["reached"].get("send_from_%s_callback" % ("accept_or_connect" if nm == "cbsend" else "close"), 0) + 1
